@@ -290,6 +290,14 @@ class ContainerMixin:
             return k(Val(lv.ety, r), s)
         return self.split(st, lv.n > 0, nonempty, lambda s: self.raise_exc(s, "IndexError", "index out of range"), label="heap-nonempty")
 
+    def bi_islice(self, args, kwargs, st, k):
+        from .flow import IsliceVal
+        if len(args) != 2 or kwargs:
+            raise Unsupported("islice with start/step")
+        self.assumptions_used.add("asyncstdlib.islice(src, n): yields the first n items of src (none, without asking src, for n <= 0), "
+                                  "asks for no further item after the n-th, ends when src ends")
+        return self.unopt(args[1], st, lambda n, s: k(IsliceVal(args[0], self.num(n)), s))
+
     def bi_ExitStack(self, args, kwargs, st, k):
         if args or kwargs or "ExitStack" not in self.reg.models:
             raise Unsupported("contextlib.ExitStack (no abstract model registered)")
